@@ -126,9 +126,122 @@ type replPair struct{ old, new string }
 
 // replacementOf recognises strings.Replace(s,old,new,-1), strings.ReplaceAll(s,old,new)
 // and (*strings.Replacer).Replace(s) with a Replacer built from constants.
+// recursiveReplace: fn is `func f(s string) string { h, t, found := strings.Cut(s, Q); if !found { return s }; return h + R + f(t) }`
+// (Q, R constants, Q non-empty): by induction on the number of occurrences f(s) = strings.ReplaceAll(s, Q, R).
+func recursiveReplace(fn *ssa.Function) (q, r string, ok bool) {
+	if fn == nil || fn.Blocks == nil || len(fn.Params) != 1 || !isStringT(fn.Params[0].Type()) || fn.Signature.Results().Len() != 1 {
+		return "", "", false
+	}
+	in := fn.Params[0]
+	var cut *ssa.Call
+	nCalls := 0
+	sx.Instrs(fn, func(i ssa.Instruction) {
+		if c, isC := i.(*ssa.Call); isC {
+			if _, isB := c.Call.Value.(*ssa.Builtin); isB {
+				return
+			}
+			nCalls++
+			if sx.CalleeName(c) == "strings.Cut" && len(c.Call.Args) == 2 && c.Call.Args[0] == ssa.Value(in) {
+				cut = c
+			}
+		}
+	})
+	if cut == nil || nCalls != 2 { // the Cut and the one recursive call
+		return "", "", false
+	}
+	q, isQ := sx.ConstString(cut.Call.Args[1])
+	if !isQ || q == "" {
+		return "", "", false
+	}
+	var head, tail, found ssa.Value
+	for _, u := range *cut.Referrers() {
+		if e, isE := u.(*ssa.Extract); isE {
+			switch e.Index {
+			case 0:
+				head = e
+			case 1:
+				tail = e
+			case 2:
+				found = e
+			}
+		}
+	}
+	if head == nil || tail == nil || found == nil {
+		return "", "", false
+	}
+	foundEdges, notFound := boolEdgesOf(found, true), boolEdgesOf(found, false)
+	if len(foundEdges) == 0 {
+		return "", "", false
+	}
+	nRet := 0
+	for _, ret := range sx.Returns(fn) {
+		nRet++
+		v := ret.Results[0]
+		if v == ssa.Value(in) {
+			// the input itself: only where nothing was found
+			if len(notFound) == 0 || !sx.MustPass(fn, nil, ret, sx.Cut{Edges: notFound}) {
+				return "", "", false
+			}
+			continue
+		}
+		parts := concatParts(v)
+		if len(parts) != 3 || parts[0] != head {
+			return "", "", false
+		}
+		rr, isR := sx.ConstString(parts[1])
+		rec, isCall := parts[2].(*ssa.Call)
+		if !isR || !isCall || sx.StaticCallee(rec) != fn || len(rec.Call.Args) != 1 || rec.Call.Args[0] != tail {
+			return "", "", false
+		}
+		if !sx.MustPass(fn, nil, ret, sx.Cut{Edges: foundEdges}) {
+			return "", "", false
+		}
+		if r != "" && r != rr {
+			return "", "", false
+		}
+		r = rr
+	}
+	if nRet < 2 || r == "" {
+		return "", "", false
+	}
+	return q, r, true
+}
+
+// boolEdgesOf: the CFG edges taken when the boolean v has the given value (tested directly or negated).
+func boolEdgesOf(v ssa.Value, want bool) map[sx.Edge]bool {
+	out := map[sx.Edge]bool{}
+	var walk func(x ssa.Value, w bool)
+	walk = func(x ssa.Value, w bool) {
+		if x.Referrers() == nil {
+			return
+		}
+		for _, u := range *x.Referrers() {
+			switch y := u.(type) {
+			case *ssa.If:
+				idx := 0
+				if !w {
+					idx = 1
+				}
+				out[sx.Edge{From: y.Block(), Idx: idx}] = true
+			case *ssa.UnOp:
+				if y.Op == token.NOT {
+					walk(y, !w)
+				}
+			}
+		}
+	}
+	walk(v, want)
+	return out
+}
+
 func replacementOf(p *core.Prog, c *ssa.Call) (subject ssa.Value, pairs []replPair, why string) {
 	name := sx.CalleeName(c)
 	a := c.Call.Args
+	if callee := sx.StaticCallee(c); callee != nil && p.InModule(callee) && len(a) == 1 {
+		if q, r, ok := recursiveReplace(sx.OrigFunc(callee)); ok {
+			return a[0], []replPair{{q, r}}, ""
+		}
+	}
 	switch name {
 	case "strings.Replace":
 		o, ok1 := sx.ConstString(a[1])
@@ -1183,8 +1296,15 @@ func runC16(p *core.Prog, r *core.Report) {
 	}
 	// helpers of the package are expanded; inside ShellEscapeExceptTilde a call of ShellEscape stays a call (its result
 	// is what C16-R1/R2 establish)
-	se := p.Inl(seSrc)
-	st := p.Inl(stSrc, seSrc)
+	// private helpers are expanded in place, except a self-recursive one (judged as a whole by recursiveReplace)
+	var recHelpers []*ssa.Function
+	for _, f := range p.PkgFuncs("util/strutil") {
+		if _, _, ok := recursiveReplace(f); ok {
+			recHelpers = append(recHelpers, f)
+		}
+	}
+	se := p.Inl(seSrc, recHelpers...)
+	st := p.Inl(stSrc, append([]*ssa.Function{seSrc}, recHelpers...)...)
 	var refOpen, refClose string
 	var refPairs []replPair
 	refOK := false
